@@ -71,6 +71,7 @@ unsigned int __real_sleep(unsigned int);
 int __real_usleep(useconds_t);
 int __real_nanosleep(const struct timespec *, struct timespec *);
 long __real_sysconf(int);
+int __real_gethostname(char *, size_t);
 long __real_random(void);
 void __real_srandom(unsigned int);
 int __real_rand(void);
@@ -1119,6 +1120,15 @@ long __wrap_sysconf(int name)
 	if (P.active && (name == _SC_NPROCESSORS_CONF || name == _SC_NPROCESSORS_ONLN))
 		return P.ncpu;
 	return __real_sysconf(name);
+}
+
+int __wrap_gethostname(char *name, size_t len)
+{
+	sim_init();
+	if (!P.active)
+		return __real_gethostname(name, len);
+	snprintf(name, len, "simhost");
+	return 0;
 }
 
 char *__wrap_blkid_get_devname(void *cache, const char *token, const char *value)
